@@ -1,1 +1,532 @@
-From Jawk Require Import Base.
+(* NasProofs.v — the number-as-string functions (Model/FunsNas.v) compute exact decimal results.
+   The value of a decimal (m, s) is the rational m * 10^(-s) (Coq's QArith, axiom free);
+   "+", "-", "*", abs, normalise and the comparisons agree with exact rational arithmetic, and the
+   normal form depends on the value only (spelling independence). *)
+From Coq Require Import List NArith ZArith Bool Lia QArith Qabs.
+From Jawk Require Import Base F64 Json Printer Fn FunBase FunsNas.
+Import ListNotations.
+Local Open Scope Z_scope.
+
+Arguments Z.pow : simpl never.
+Arguments Z.mul : simpl never.
+Arguments Z.add : simpl never.
+Arguments Z.sub : simpl never.
+Arguments Z.quot : simpl never.
+Arguments Z.rem : simpl never.
+
+(* ================================================================== *)
+(* 1. the value of a decimal                                           *)
+(* ================================================================== *)
+
+Definition p10 (k : Z) : positive := Z.to_pos (10 ^ k).
+
+Definition dec_value (d : Z * Z) : Q :=
+  if 0 <=? snd d then fst d # p10 (snd d) else inject_Z (fst d * 10 ^ (- snd d)).
+
+Lemma pow10_gt0 : forall k, 0 <= k -> 0 < 10 ^ k.
+Proof. intros k Hk. apply Z.pow_pos_nonneg; lia. Qed.
+
+Lemma p10_spec : forall k, 0 <= k -> Zpos (p10 k) = 10 ^ k.
+Proof. intros k Hk. unfold p10. apply Z2Pos.id. apply pow10_gt0; exact Hk. Qed.
+
+Lemma pow10_split : forall a b, 0 <= a -> 0 <= b -> 10 ^ (a + b) = 10 ^ a * 10 ^ b.
+Proof. intros a b Ha Hb. apply Z.pow_add_r; assumption. Qed.
+
+(* the value written with any sufficiently large non-negative scale *)
+Lemma dec_value_scaled : forall m s S, s <= S -> 0 <= S ->
+  dec_value (m, s) == (m * 10 ^ (S - s)) # p10 S.
+Proof.
+  intros m s S Hs HS. unfold dec_value. cbn [fst snd].
+  destruct (Z.leb_spec 0 s) as [H0|H0].
+  - unfold Qeq. cbn [Qnum Qden]. rewrite !p10_spec by lia.
+    replace S with ((S - s) + s) at 1 by ring.
+    rewrite pow10_split by lia. ring.
+  - unfold Qeq, inject_Z. cbn [Qnum Qden]. rewrite p10_spec by lia.
+    replace (S - s) with (- s + S) by ring.
+    rewrite pow10_split by lia. ring.
+Qed.
+
+Lemma Qeq_same_den : forall x y p, x # p == y # p <-> x = y.
+Proof.
+  intros x y p. unfold Qeq. cbn [Qnum Qden]. split.
+  - intros H. apply Z.mul_cancel_r in H; [exact H|discriminate].
+  - intros H. subst. reflexivity.
+Qed.
+
+Lemma Qplus_same_den : forall x y p, (x # p) + (y # p) == (x + y) # p.
+Proof.
+  intros x y p. unfold Qeq, Qplus. cbn [Qnum Qden]. rewrite Pos2Z.inj_mul. ring.
+Qed.
+
+Lemma Qopp_den : forall x p, - (x # p) == (- x) # p.
+Proof. intros x p. reflexivity. Qed.
+
+Lemma Qminus_same_den : forall x y p, (x # p) - (y # p) == (x - y) # p.
+Proof.
+  intros x y p. unfold Qminus. rewrite Qopp_den, Qplus_same_den.
+  apply Qeq_same_den. ring.
+Qed.
+
+Lemma Qmult_p10 : forall x y S T, 0 <= S -> 0 <= T ->
+  (x # p10 S) * (y # p10 T) == (x * y) # p10 (S + T).
+Proof.
+  intros x y S T HS HT. unfold Qeq, Qmult. cbn [Qnum Qden].
+  rewrite Pos2Z.inj_mul, !p10_spec by lia. rewrite pow10_split by lia. ring.
+Qed.
+
+Lemma dec_value_zero : forall s, dec_value (0, s) == 0.
+Proof.
+  intros s. rewrite (dec_value_scaled 0 s (Z.max s 0)) by lia.
+  unfold Qeq. cbn [Qnum Qden]. ring.
+Qed.
+
+Lemma dec_value_zero_iff : forall m s, dec_value (m, s) == 0 <-> m = 0.
+Proof.
+  intros m s. rewrite (dec_value_scaled m s (Z.max s 0)) by lia.
+  unfold Qeq. cbn [Qnum Qden]. rewrite Z.mul_1_r, Z.mul_0_l.
+  pose proof (pow10_gt0 (Z.max s 0 - s)) as Hp.
+  split; intros H; [|subst; ring].
+  apply Z.mul_eq_0 in H. destruct H as [H|H]; [exact H|lia].
+Qed.
+
+Lemma dec_value_fst0 : forall a, fst a = 0 -> dec_value a == 0.
+Proof. intros [m s] H. cbn [fst] in H. subst. apply dec_value_zero. Qed.
+
+(* ================================================================== *)
+(* 2. alignment                                                        *)
+(* ================================================================== *)
+
+(* both values at one common scale S *)
+Lemma dec_align_value : forall a b x y s, dec_align a b = (x, y, s) ->
+  let S := Z.max s 0 in
+  dec_value a == (x * 10 ^ (S - s)) # p10 S /\
+  dec_value b == (y * 10 ^ (S - s)) # p10 S /\
+  (forall z, dec_value (z, s) == (z * 10 ^ (S - s)) # p10 S).
+Proof.
+  intros [ma sa] [mb sb] x y s H S. unfold dec_align, pow10 in H.
+  injection H as Hx Hy Hs. subst x y.
+  assert (Hsa : sa <= s) by lia. assert (Hsb : sb <= s) by lia.
+  assert (HS : s <= S /\ 0 <= S) by (unfold S; lia). destruct HS as [HS1 HS2].
+  rewrite Hs. split; [|split].
+  - rewrite (dec_value_scaled ma sa S) by lia. apply Qeq_same_den.
+    replace (S - sa) with ((s - sa) + (S - s)) by ring.
+    rewrite pow10_split by lia. ring.
+  - rewrite (dec_value_scaled mb sb S) by lia. apply Qeq_same_den.
+    replace (S - sb) with ((s - sb) + (S - s)) by ring.
+    rewrite pow10_split by lia. ring.
+  - intros z. apply dec_value_scaled; lia.
+Qed.
+
+(* ================================================================== *)
+(* 3. N1 - N4 : "+", "-", "*", abs are exact                            *)
+(* ================================================================== *)
+
+Theorem dec_add_exact : forall a b, dec_value (dec_add a b) == dec_value a + dec_value b.
+Proof.
+  intros a b. unfold dec_add.
+  destruct (Z.eqb_spec (fst b) 0) as [Hb|Hb].
+  { rewrite (dec_value_fst0 b Hb). ring. }
+  destruct (Z.eqb_spec (fst a) 0) as [Ha|Ha].
+  { rewrite (dec_value_fst0 a Ha). ring. }
+  destruct (dec_align a b) as [[x y] s] eqn:E.
+  destruct (dec_align_value a b x y s E) as [Va [Vb Vz]].
+  rewrite Va, Vb, Vz, Qplus_same_den. apply Qeq_same_den. ring.
+Qed.
+
+Theorem dec_sub_exact : forall a b, dec_value (dec_sub a b) == dec_value a - dec_value b.
+Proof.
+  intros a b. unfold dec_sub.
+  destruct (Z.eqb_spec (fst b) 0) as [Hb|Hb].
+  { rewrite (dec_value_fst0 b Hb). ring. }
+  destruct (Z.eqb_spec (fst a) 0) as [Ha|Ha].
+  { rewrite (dec_value_fst0 a Ha). destruct b as [mb sb]. cbn [fst snd].
+    set (S := Z.max sb 0).
+    rewrite (dec_value_scaled (- mb) sb S), (dec_value_scaled mb sb S) by (unfold S; lia).
+    unfold Qminus. rewrite Qplus_0_l, Qopp_den. apply Qeq_same_den. ring. }
+  destruct (dec_align a b) as [[x y] s] eqn:E.
+  destruct (dec_align_value a b x y s E) as [Va [Vb Vz]].
+  rewrite Va, Vb, Vz, Qminus_same_den. apply Qeq_same_den. ring.
+Qed.
+
+Lemma dec_is_one_value : forall a, dec_is_one a = true -> dec_value a == 1.
+Proof.
+  intros [m s] H. unfold dec_is_one, pow10 in H.
+  apply andb_true_iff in H. destruct H as [H Hm].
+  apply andb_true_iff in H. destruct H as [H0 H38].
+  apply Z.leb_le in H0. apply Z.eqb_eq in Hm. subst m.
+  rewrite (dec_value_scaled (10 ^ s) s s) by lia.
+  unfold Qeq. cbn [Qnum Qden]. rewrite p10_spec by lia.
+  rewrite Z.sub_diag, Z.pow_0_r. ring.
+Qed.
+
+Theorem dec_mul_exact : forall a b, dec_value (dec_mul a b) == dec_value a * dec_value b.
+Proof.
+  intros a b. unfold dec_mul.
+  destruct (dec_is_one a) eqn:Ha.
+  { rewrite (dec_is_one_value a Ha). ring. }
+  destruct (dec_is_one b) eqn:Hb.
+  { rewrite (dec_is_one_value b Hb). ring. }
+  destruct a as [ma sa], b as [mb sb]. cbn [fst snd].
+  set (Sa := Z.max sa 0). set (Sb := Z.max sb 0).
+  rewrite (dec_value_scaled ma sa Sa), (dec_value_scaled mb sb Sb) by (unfold Sa, Sb; lia).
+  rewrite (dec_value_scaled (ma * mb) (sa + sb) (Sa + Sb)) by (unfold Sa, Sb; lia).
+  rewrite Qmult_p10 by (unfold Sa, Sb; lia). apply Qeq_same_den.
+  replace (Sa + Sb - (sa + sb)) with ((Sa - sa) + (Sb - sb)) by ring.
+  rewrite pow10_split by (unfold Sa, Sb; lia). ring.
+Qed.
+
+Theorem dec_abs_exact : forall a, dec_value (dec_abs a) == Qabs (dec_value a).
+Proof.
+  intros [m s]. unfold dec_abs. cbn [fst snd].
+  set (S := Z.max s 0).
+  rewrite (dec_value_scaled (Z.abs m) s S), (dec_value_scaled m s S) by (unfold S; lia).
+  unfold Qabs. apply Qeq_same_den.
+  rewrite Z.abs_mul. f_equal. symmetry. apply Z.abs_eq.
+  apply Z.lt_le_incl, pow10_gt0. unfold S; lia.
+Qed.
+
+(* ================================================================== *)
+(* 4. N6 : comparison is exact                                         *)
+(* ================================================================== *)
+
+Lemma Qcompare_same_den : forall x y p, ((x # p) ?= (y # p))%Q = (x ?= y).
+Proof.
+  intros x y p. unfold Qcompare. cbn [Qnum Qden].
+  symmetry. apply Zmult_compare_compat_r. reflexivity.
+Qed.
+
+Theorem dec_cmp_exact : forall a b, dec_cmp a b = (dec_value a ?= dec_value b)%Q.
+Proof.
+  intros a b. unfold dec_cmp.
+  destruct (dec_align a b) as [[x y] s] eqn:E.
+  destruct (dec_align_value a b x y s E) as [Va [Vb _]].
+  rewrite Va, Vb, Qcompare_same_den.
+  apply Zmult_compare_compat_r. apply Z.lt_gt, pow10_gt0. lia.
+Qed.
+
+(* ================================================================== *)
+(* 5. N5 : the normal form keeps the value and depends on the value only *)
+(* ================================================================== *)
+
+Ltac Zify.zify_post_hook ::= Z.to_euclidean_division_equations.
+
+(* a normal form: zero is (0, 0); otherwise the mantissa is not divisible by 10 *)
+Definition dec_nf (d : Z * Z) : Prop :=
+  d = (0, 0) \/ (fst d <> 0 /\ Z.rem (fst d) 10 <> 0).
+
+Lemma dec_value_shift : forall q s, dec_value (q, s - 1) == dec_value (10 * q, s).
+Proof.
+  intros q s. set (S := Z.max s 0).
+  rewrite (dec_value_scaled q (s - 1) S), (dec_value_scaled (10 * q) s S) by (unfold S; lia).
+  apply Qeq_same_den.
+  replace (S - (s - 1)) with (1 + (S - s)) by ring.
+  rewrite pow10_split by (unfold S; lia). rewrite Z.pow_1_r. ring.
+Qed.
+
+Lemma strip10_value : forall fuel m s, dec_value (strip10 fuel m s) == dec_value (m, s).
+Proof.
+  induction fuel as [|f IH]; intros m s; cbn [strip10]; [reflexivity|].
+  destruct (Z.eqb_spec (Z.rem m 10) 0) as [Hr|Hr]; [|reflexivity].
+  rewrite IH, dec_value_shift.
+  replace (10 * Z.quot m 10) with m by lia. reflexivity.
+Qed.
+
+Lemma strip10_nf : forall fuel m s, m <> 0 -> Z.abs m < 2 ^ Z.of_nat fuel ->
+  fst (strip10 fuel m s) <> 0 /\ Z.rem (fst (strip10 fuel m s)) 10 <> 0.
+Proof.
+  induction fuel as [|f IH]; intros m s Hm Hlt.
+  - cbn [Z.of_nat] in Hlt. rewrite Z.pow_0_r in Hlt. lia.
+  - cbn [strip10].
+    destruct (Z.eqb_spec (Z.rem m 10) 0) as [Hr|Hr]; [|cbn [fst]; split; assumption].
+    rewrite Nat2Z.inj_succ, Z.pow_succ_r in Hlt by lia.
+    apply IH; lia.
+Qed.
+
+Lemma size_nat_pos_gt : forall p, Zpos p < 2 ^ Z.of_nat (Pos.size_nat p).
+Proof.
+  induction p as [p IH|p IH|]; cbn [Pos.size_nat];
+    rewrite Nat2Z.inj_succ, Z.pow_succ_r by lia; lia.
+Qed.
+
+Lemma abs_size_gt : forall m, Z.abs m < 2 ^ Z.of_nat (N.size_nat (Z.abs_N m)).
+Proof.
+  intros [|p|p]; cbn [Z.abs Z.abs_N N.size_nat Z.of_nat].
+  - rewrite Z.pow_0_r. lia.
+  - apply size_nat_pos_gt.
+  - apply size_nat_pos_gt.
+Qed.
+
+Theorem dec_normalize_value : forall a, dec_value (dec_normalize a) == dec_value a.
+Proof.
+  intros [m s]. unfold dec_normalize.
+  destruct (Z.eqb_spec m 0) as [Hm|Hm].
+  - subst m. rewrite !dec_value_zero. reflexivity.
+  - apply strip10_value.
+Qed.
+
+Theorem dec_normalize_nf : forall a, dec_nf (dec_normalize a).
+Proof.
+  intros [m s]. unfold dec_normalize, dec_nf.
+  destruct (Z.eqb_spec m 0) as [Hm|Hm]; [left; reflexivity|right].
+  apply strip10_nf; [exact Hm|apply abs_size_gt].
+Qed.
+
+Lemma nf_unique_le : forall m1 s1 m2 s2, s1 <= s2 ->
+  Z.rem m1 10 <> 0 -> Z.rem m2 10 <> 0 ->
+  dec_value (m1, s1) == dec_value (m2, s2) -> (m1, s1) = (m2, s2).
+Proof.
+  intros m1 s1 m2 s2 Hle H1 H2 HV.
+  set (S := Z.max s2 0).
+  rewrite (dec_value_scaled m1 s1 S), (dec_value_scaled m2 s2 S) in HV by (unfold S; lia).
+  apply Qeq_same_den in HV.
+  replace (S - s1) with ((s2 - s1) + (S - s2)) in HV by ring.
+  rewrite pow10_split, Z.mul_assoc in HV by (unfold S; lia).
+  apply Z.mul_cancel_r in HV; [|pose proof (pow10_gt0 (S - s2)); unfold S in *; lia].
+  destruct (Z.eq_dec s1 s2) as [Es|Es].
+  - subst s2. rewrite Z.sub_diag, Z.pow_0_r, Z.mul_1_r in HV. subst. reflexivity.
+  - exfalso. replace (s2 - s1) with (1 + (s2 - s1 - 1)) in HV by ring.
+    rewrite pow10_split, Z.pow_1_r in HV by lia.
+    set (k := 10 ^ (s2 - s1 - 1)) in HV. lia.
+Qed.
+
+Theorem dec_nf_unique : forall a b, dec_nf a -> dec_nf b ->
+  dec_value a == dec_value b -> a = b.
+Proof.
+  intros [m1 s1] [m2 s2] Ha Hb HV. unfold dec_nf in Ha, Hb. cbn [fst] in Ha, Hb.
+  destruct Ha as [Ha|[Ha Ra]]; destruct Hb as [Hb|[Hb Rb]].
+  - congruence.
+  - exfalso. injection Ha as -> ->. rewrite dec_value_zero in HV.
+    symmetry in HV. apply dec_value_zero_iff in HV. contradiction.
+  - exfalso. injection Hb as -> ->. rewrite dec_value_zero in HV.
+    apply dec_value_zero_iff in HV. contradiction.
+  - destruct (Z.le_ge_cases s1 s2) as [Hle|Hle].
+    + apply nf_unique_le; assumption.
+    + symmetry. apply nf_unique_le; try assumption. symmetry. exact HV.
+Qed.
+
+Theorem dec_normalize_canonical : forall a b,
+  dec_value a == dec_value b -> dec_normalize a = dec_normalize b.
+Proof.
+  intros a b HV. apply dec_nf_unique; try apply dec_normalize_nf.
+  rewrite !dec_normalize_value. exact HV.
+Qed.
+
+(* the converse: the normal form determines the value *)
+Corollary dec_normalize_eq_iff : forall a b,
+  dec_normalize a = dec_normalize b <-> dec_value a == dec_value b.
+Proof.
+  intros a b. split; [|apply dec_normalize_canonical].
+  intros H. rewrite <- (dec_normalize_value a), <- (dec_normalize_value b), H. reflexivity.
+Qed.
+
+Corollary dec_normalize_idem : forall a, dec_normalize (dec_normalize a) = dec_normalize a.
+Proof. intros a. apply dec_normalize_canonical, dec_normalize_value. Qed.
+
+(* ================================================================== *)
+(* 6. N7 : consequences for sem_nas                                    *)
+(* ================================================================== *)
+
+Definition jstr (s : str) : option json := Some (JStr s).
+
+Lemma of_dec_value : forall d d', dec_value d == dec_value d' -> of_dec d = of_dec d'.
+Proof. intros d d' H. unfold of_dec. rewrite (dec_normalize_canonical d d' H). reflexivity. Qed.
+
+Theorem sem_nas_add2 : forall s1 s2 a b,
+  dec_parse s1 = Some a -> dec_parse s2 = Some b ->
+  sem_nas FNas_add [jstr s1; jstr s2]
+  = Some (Some (JStr (dec_show (dec_normalize (dec_add a b))))).
+Proof.
+  intros s1 s2 a b Ha Hb. unfold jstr.
+  cbn [sem_nas fold_decs to_dec]. rewrite Ha, Hb. cbn [option_map].
+  do 2 f_equal. apply of_dec_value.
+  rewrite !dec_add_exact, dec_value_zero. ring.
+Qed.
+
+Theorem sem_nas_sub2 : forall s1 s2 a b,
+  dec_parse s1 = Some a -> dec_parse s2 = Some b ->
+  sem_nas FNas_sub_ [jstr s1; jstr s2]
+  = Some (Some (JStr (dec_show (dec_normalize (dec_sub a b))))).
+Proof.
+  intros s1 s2 a b Ha Hb. unfold jstr.
+  cbn [sem_nas]. unfold nas_sub, arg. cbn [nth_error to_dec]. rewrite Ha, Hb. reflexivity.
+Qed.
+
+(* unary minus *)
+Theorem sem_nas_sub1 : forall s1 a,
+  dec_parse s1 = Some a ->
+  sem_nas FNas_sub_ [jstr s1] = Some (Some (of_dec (dec_sub (0, 0) a))) /\
+  dec_value (dec_sub (0, 0) a) == - dec_value a.
+Proof.
+  intros s1 a Ha. unfold jstr. split.
+  - cbn [sem_nas]. unfold nas_sub. cbn [to_dec]. rewrite Ha. reflexivity.
+  - rewrite dec_sub_exact, dec_value_zero. ring.
+Qed.
+
+Theorem sem_nas_mul2 : forall s1 s2 a b,
+  dec_parse s1 = Some a -> dec_parse s2 = Some b ->
+  sem_nas FNas_mul [jstr s1; jstr s2]
+  = Some (Some (JStr (dec_show (dec_normalize (dec_mul a b))))).
+Proof.
+  intros s1 s2 a b Ha Hb. unfold jstr.
+  cbn [sem_nas fold_decs to_dec]. rewrite Ha, Hb. cbn [option_map].
+  reflexivity.       (* dec_mul (1, 0) a is a: the "is one" shortcut *)
+Qed.
+
+Theorem sem_nas_abs1 : forall s1 a,
+  dec_parse s1 = Some a ->
+  sem_nas FNas_abs [jstr s1] = Some (Some (JStr (dec_show (dec_normalize (dec_abs a))))).
+Proof.
+  intros s1 a Ha. unfold jstr.
+  cbn [sem_nas]. unfold nas_unary, arg. cbn [nth_error to_dec]. rewrite Ha. reflexivity.
+Qed.
+
+Theorem sem_nas_normalize1 : forall s1 a,
+  dec_parse s1 = Some a ->
+  sem_nas FNas_normalize [jstr s1] = Some (Some (JStr (dec_show (dec_normalize a)))).
+Proof.
+  intros s1 a Ha. unfold jstr.
+  cbn [sem_nas]. unfold nas_unary, arg. cbn [nth_error to_dec]. rewrite Ha. reflexivity.
+Qed.
+
+(* "+" and "*" of any number of arguments: the exact sum / product of the values *)
+Lemma fold_decs_spec : forall op vals ds acc,
+  Forall2 (fun v d => to_dec v = Some d) vals ds ->
+  fold_decs op acc vals = Some (fold_left op ds acc).
+Proof.
+  intros op vals ds acc H. revert acc.
+  induction H as [|v d vals ds Hv _ IH]; intros acc; cbn [fold_decs fold_left]; [reflexivity|].
+  rewrite Hv. apply IH.
+Qed.
+
+Lemma fold_add_value : forall ds acc,
+  dec_value (fold_left dec_add ds acc) == fold_left Qplus (map dec_value ds) (dec_value acc).
+Proof.
+  induction ds as [|d ds IH]; intros acc; cbn [fold_left map]; [reflexivity|].
+  rewrite IH. generalize (map dec_value ds) as l.
+  pose proof (dec_add_exact acc d) as H. revert H.
+  generalize (dec_value (dec_add acc d)) as x. generalize (dec_value acc + dec_value d)%Q as y.
+  intros y x H l. revert x y H.
+  induction l as [|q l IHl]; intros x y H; cbn [fold_left]; [exact H|].
+  apply IHl. rewrite H. reflexivity.
+Qed.
+
+Lemma fold_mul_value : forall ds acc,
+  dec_value (fold_left dec_mul ds acc) == fold_left Qmult (map dec_value ds) (dec_value acc).
+Proof.
+  induction ds as [|d ds IH]; intros acc; cbn [fold_left map]; [reflexivity|].
+  rewrite IH. generalize (map dec_value ds) as l.
+  pose proof (dec_mul_exact acc d) as H. revert H.
+  generalize (dec_value (dec_mul acc d)) as x. generalize (dec_value acc * dec_value d)%Q as y.
+  intros y x H l. revert x y H.
+  induction l as [|q l IHl]; intros x y H; cbn [fold_left]; [exact H|].
+  apply IHl. rewrite H. reflexivity.
+Qed.
+
+Theorem sem_nas_add_list : forall vals ds,
+  Forall2 (fun v d => to_dec v = Some d) vals ds ->
+  exists r, sem_nas FNas_add vals = Some (Some (of_dec r)) /\
+            dec_value r == fold_left Qplus (map dec_value ds) 0%Q.
+Proof.
+  intros vals ds H. exists (fold_left dec_add ds (0, 0)). split.
+  - cbn [sem_nas]. rewrite (fold_decs_spec dec_add vals ds (0, 0) H). reflexivity.
+  - rewrite fold_add_value. reflexivity.
+Qed.
+
+Theorem sem_nas_mul_list : forall vals ds,
+  Forall2 (fun v d => to_dec v = Some d) vals ds ->
+  exists r, sem_nas FNas_mul vals = Some (Some (of_dec r)) /\
+            dec_value r == fold_left Qmult (map dec_value ds) 1%Q.
+Proof.
+  intros vals ds H. exists (fold_left dec_mul ds (1, 0)). split.
+  - cbn [sem_nas]. rewrite (fold_decs_spec dec_mul vals ds (1, 0) H). reflexivity.
+  - rewrite fold_mul_value. reflexivity.
+Qed.
+
+(* the comparison functions *)
+Definition nas_cmp_test (f : fn) : option (comparison -> bool) :=
+  match f with
+  | FNas_eq => Some (fun c => match c with Eq => true | _ => false end)
+  | FNas_neq => Some (fun c => match c with Eq => false | _ => true end)
+  | FNas_lt => Some (fun c => match c with Lt => true | _ => false end)
+  | FNas_lte => Some (fun c => match c with Gt => false | _ => true end)
+  | FNas_gt => Some (fun c => match c with Gt => true | _ => false end)
+  | FNas_gte => Some (fun c => match c with Lt => false | _ => true end)
+  | _ => None
+  end.
+
+Theorem sem_nas_compare : forall f t s1 s2 a b,
+  nas_cmp_test f = Some t ->
+  dec_parse s1 = Some a -> dec_parse s2 = Some b ->
+  sem_nas f [jstr s1; jstr s2] = Some (Some (JBool (t (dec_value a ?= dec_value b)%Q))).
+Proof.
+  intros f t s1 s2 a b Ht Ha Hb. unfold jstr.
+  destruct f; try discriminate Ht; injection Ht as <-;
+    cbn [sem_nas]; unfold nas_compare, arg; cbn [nth_error to_dec]; rewrite Ha, Hb, dec_cmp_exact; reflexivity.
+Qed.
+
+(* the same, against the order relations of Q *)
+Theorem sem_nas_compare_true : forall s1 s2 a b,
+  dec_parse s1 = Some a -> dec_parse s2 = Some b ->
+  let yes f := sem_nas f [jstr s1; jstr s2] = Some (Some (JBool true)) in
+  (yes FNas_eq <-> dec_value a == dec_value b) /\
+  (yes FNas_neq <-> ~ dec_value a == dec_value b) /\
+  (yes FNas_lt <-> (dec_value a < dec_value b)%Q) /\
+  (yes FNas_lte <-> (dec_value a <= dec_value b)%Q) /\
+  (yes FNas_gt <-> (dec_value b < dec_value a)%Q) /\
+  (yes FNas_gte <-> (dec_value b <= dec_value a)%Q).
+Proof.
+  intros s1 s2 a b Ha Hb yes. unfold yes.
+  rewrite (sem_nas_compare FNas_eq _ s1 s2 a b eq_refl Ha Hb).
+  rewrite (sem_nas_compare FNas_neq _ s1 s2 a b eq_refl Ha Hb).
+  rewrite (sem_nas_compare FNas_lt _ s1 s2 a b eq_refl Ha Hb).
+  rewrite (sem_nas_compare FNas_lte _ s1 s2 a b eq_refl Ha Hb).
+  rewrite (sem_nas_compare FNas_gt _ s1 s2 a b eq_refl Ha Hb).
+  rewrite (sem_nas_compare FNas_gte _ s1 s2 a b eq_refl Ha Hb).
+  generalize (dec_value a) as x. generalize (dec_value b) as y. intros y x.
+  destruct (Qcompare_spec x y) as [H|H|H]; unfold Qeq, Qlt, Qle in *;
+    repeat split; intros; try reflexivity; try discriminate; try lia.
+Qed.
+
+(* spelling independence: the result depends on the values of the arguments only *)
+Definition nas_binary (f : fn) : bool :=
+  match f with
+  | FNas_add | FNas_sub_ | FNas_mul
+  | FNas_eq | FNas_neq | FNas_lt | FNas_lte | FNas_gt | FNas_gte => true
+  | _ => false
+  end.
+
+Theorem sem_nas_spelling2 : forall f s1 s2 s1' s2' a b a' b',
+  nas_binary f = true ->
+  dec_parse s1 = Some a -> dec_parse s2 = Some b ->
+  dec_parse s1' = Some a' -> dec_parse s2' = Some b' ->
+  dec_value a == dec_value a' -> dec_value b == dec_value b' ->
+  sem_nas f [jstr s1; jstr s2] = sem_nas f [jstr s1'; jstr s2'].
+Proof.
+  intros f s1 s2 s1' s2' a b a' b' Hf Ha Hb Ha' Hb' Va Vb.
+  destruct f; try discriminate Hf;
+    try (match goal with |- sem_nas ?f _ = _ =>
+           rewrite (sem_nas_compare f _ s1 s2 a b eq_refl Ha Hb),
+                   (sem_nas_compare f _ s1' s2' a' b' eq_refl Ha' Hb'), Va, Vb; reflexivity
+         end).
+  - rewrite (sem_nas_add2 s1 s2 a b Ha Hb), (sem_nas_add2 s1' s2' a' b' Ha' Hb').
+    do 4 f_equal. apply dec_normalize_canonical. rewrite !dec_add_exact, Va, Vb. reflexivity.
+  - rewrite (sem_nas_sub2 s1 s2 a b Ha Hb), (sem_nas_sub2 s1' s2' a' b' Ha' Hb').
+    do 4 f_equal. apply dec_normalize_canonical. rewrite !dec_sub_exact, Va, Vb. reflexivity.
+  - rewrite (sem_nas_mul2 s1 s2 a b Ha Hb), (sem_nas_mul2 s1' s2' a' b' Ha' Hb').
+    do 4 f_equal. apply dec_normalize_canonical. rewrite !dec_mul_exact, Va, Vb. reflexivity.
+Qed.
+
+Theorem sem_nas_spelling1 : forall f s1 s1' a a',
+  f = FNas_abs \/ f = FNas_normalize \/ f = FNas_sub_ ->
+  dec_parse s1 = Some a -> dec_parse s1' = Some a' ->
+  dec_value a == dec_value a' ->
+  sem_nas f [jstr s1] = sem_nas f [jstr s1'].
+Proof.
+  intros f s1 s1' a a' Hf Ha Ha' Va. destruct Hf as [->|[->| ->]].
+  - rewrite (sem_nas_abs1 s1 a Ha), (sem_nas_abs1 s1' a' Ha').
+    do 4 f_equal. apply dec_normalize_canonical. rewrite !dec_abs_exact, Va. reflexivity.
+  - rewrite (sem_nas_normalize1 s1 a Ha), (sem_nas_normalize1 s1' a' Ha').
+    do 4 f_equal. apply dec_normalize_canonical. exact Va.
+  - destruct (sem_nas_sub1 s1 a Ha) as [-> V1]. destruct (sem_nas_sub1 s1' a' Ha') as [-> V2].
+    do 2 f_equal. apply of_dec_value. rewrite V1, V2, Va. reflexivity.
+Qed.
